@@ -41,6 +41,12 @@ pub struct SnapState {
     pub max_held: usize,
     /// DATA frames the scripted peer has sent so far (no DATA event can exist without one)
     pub peer_data_frames: usize,
+    /// set by the engine when the world is quiescent: the next before-poll snapshot is the state in which
+    /// the endpoint went to sleep, and credit it owes the peer must not be sitting there unsent
+    pub probe_quiescent: bool,
+    pub probes_done: u64,
+    /// the snapshot current when the script logged its "final state sampled" note (raw window family)
+    pub at_note: Option<Snapshot>,
 }
 
 /// Reference bounds for C18, computed by the harness from the documented configuration knobs only.
@@ -78,6 +84,23 @@ impl SnapHook {
         let mut st = self.0.borrow_mut();
         st.target_conn_window = v as i64;
         st.max_target_conn_window = st.max_target_conn_window.max(v as i64);
+    }
+
+    /// The world is quiescent: judge the state the endpoint sleeps in at its next poll.
+    pub fn probe_quiescent(&self) {
+        let mut st = self.0.borrow_mut();
+        st.probe_quiescent = true;
+        st.force = st.force.max(2);
+    }
+
+    pub fn force_always(&self) {
+        self.0.borrow_mut().force = u32::MAX;
+    }
+
+    /// Remember the latest snapshot as the judged final state.
+    pub fn mark_final(&self) {
+        let mut st = self.0.borrow_mut();
+        st.at_note = st.last.clone();
     }
 
     pub fn set_c18(&self, b: C18Bounds) {
@@ -174,6 +197,27 @@ impl SnapHook {
                     "stream-available-exceeds-window",
                     format!("{} {}: stream {} available={} > window={} state={}", side.name(), at, x.id, x.send_available, x.send_window, x.state),
                 );
+            }
+        }
+
+        // --- C03: at quiescence no released credit may be waiting to be advertised
+        if st.probe_quiescent && at == "before-poll" {
+            st.probe_quiescent = false;
+            st.probes_done += 1;
+            if s.conn_error.is_none() {
+                let owed = |window: i32, available: i32| -> bool {
+                    // h2's own policy: advertise once the unadvertised part reaches half the advertised window
+                    window >= 0 && available > window && (available - window) as i64 >= ((window / 2) as i64).max(1)
+                };
+                if owed(s.recv.conn_window, s.recv.conn_available) {
+                    Self::fail(st, "C03", "released-connection-credit-unadvertised-at-quiescence", format!("{}: the endpoint is idle with connection recv window={} but available={} (released by the application, above the update threshold) and no WINDOW_UPDATE on its way", side.name(), s.recv.conn_window, s.recv.conn_available));
+                }
+                for x in &s.streams {
+                    let recv_open = x.state.starts_with("Open") || x.state.starts_with("HalfClosedLocal");
+                    if recv_open && x.is_recv && owed(x.recv_window, x.recv_available) {
+                        Self::fail(st, "C03", "released-stream-credit-unadvertised-at-quiescence", format!("{}: the endpoint is idle with stream {} recv window={} but available={} (released by the application, above the update threshold), queued_for_window_update={}", side.name(), x.id, x.recv_window, x.recv_available, x.is_pending_window_update));
+                    }
+                }
             }
         }
 
